@@ -7,26 +7,29 @@ func init() { register("C05", checkC05) }
 
 func checkC05(c *Ctx) {
 	r := c.R
-	r.Explanation = "Decides structural necessary conditions of C05 on package cron, on every path. Constructs are found by ROLE, not by unexported name: Cron's fields by type/method set (the []*Entry list, the bool flag, the mutex, the Add/Done/Wait counter, the channels by element type, the *time.Location), the scheduler loop as the function whose blocking select receives from the stop channel, helpers by what they do. Facts are established interprocedurally: a path-sensitive powerset flow over the package's functions (callee summaries, entry states from call sites, go statements handing the scheduler role over, callbacks of sort/slices run in the caller's state, branches on a tested flag or on a bool helper's result pruned per path), values followed through parameters, helper results, named results and temporaries. (In the clauses below runningMu/running/entries/jobWaiter/add/remove/snapshot/stop denote those roles.) " +
-		"(S1) Cron.entries and the Next/Prev of its elements are touched only by the scheduler goroutine (the function Start spawns and helpers reachable only from it) or, in API methods and shared helpers, with Cron.runningMu held on a branch where Cron.running was read false in the same critical section; the scheduler is started only from a critical section that read running==false and sets it true (one scheduler at a time). " +
-		"(S2) every send on Cron.add/remove/snapshot/stop happens with runningMu held on the running==true branch; Stop clears running on every path that sent the stop request; every return of the method that forwards a removal/an addition has either forwarded it or applied it to Cron.entries itself. " +
-		"(S3) every goroutine that invokes Job.Run is preceded by jobWaiter.Add(n>0) and does not call jobWaiter.Done before Run; the context Stop returns comes from context.WithCancel(Background) and its cancel is called only after jobWaiter.Wait. " +
-		"(S4) every start of an entry's job is dominated by facts origNext <= (reading of the clock) and !origNext.IsZero(), and the iteration that starts it stores Prev = origNext and Next = Schedule.Next(<clock reading>). " +
-		"(S5) after the scheduler received the stop request no path returns to the wait, starts a job or touches entries; after it received a removal request every path applies the removal to Cron.entries before waiting again; the helper that applies it keeps exactly the entries whose ID differs. " +
-		"(S6) Cron.stop/remove/add are created unbuffered (the API call returns only when the scheduler has taken the request). " +
-		"(S7) the timer is armed with entries[0].Next minus a clock reading refreshed after the last wait, entries being sorted (sort.Sort on Cron.entries) with no later mutation; the comparator puts zero Next last and orders by Before; an entry received on Cron.add gets Next from its own schedule and a fresh clock reading and is appended. " +
-		"Also: a sync.WaitGroup counting jobs must not be waited on by a detached goroutine while a restart can Add to it (documented reuse restriction, panics); before its first wait the scheduler recomputes Next of every existing entry; the blocking drain of the timer channel is unreachable with the timer the wake-up case consumed; no path starts one entry twice in one wake-up iteration. " +
-		"(S9) every time handed to Entry.Schedule.Next (initial pass, add case, wake-up bookkeeping) derives from X.In(Cron.location) through now()/phis/parameters. " +
-		"Variables are followed as LOCATIONS (an SSA web through parameters, a local cell, a field of a local struct): 'now refreshed after the wait', 'timer cleared after it fired', 'nothing after stop' and 'timer re-armed after every change of entries/Next' (S7-rearm) are decided by flows that observe the assignments to the location and track flag variables (boolean phis, nil tests), so exit-by-flag loops and value+flag pairs are followed exactly; callbacks handed to same-package helpers (withLock(func(){...})) and calls through unexported func-typed fields are followed; the mutex state is part of the flow. " +
-		"(S3-wait-after-stop) in the exported method that sends the stop request, every start of the wait on the job counter (go statement whose goroutine reaches Wait, or a synchronous Wait) follows the send or a read of running==false. (S10) entry IDs come from a counter field of Cron (role: the field of Entry.ID's type whose value reaches Entry.ID): it is read and written only with the mutex held, it is only ever assigned itself plus a non-zero constant, and on every path a critical section that takes a value for an ID also advances it — so two live entries never share an ID and Remove(id) cannot hit another entry. " +
-		"NOT decided: once-per-activation over all histories and interleavings, timing ('never early' only as a guard on every start), behaviour under clock jumps, the values Entries() returns beyond 'Prev is the instant that was compared', the chain wrappers' semantics, user Schedule implementations."
+	r.Explanation = "Decides structural necessary conditions of C05 on package cron, on every path. " +
+		"HOW CONSTRUCTS ARE FOUND: by role, anchored on the exported API (Cron, Entry and its exported fields, Job, Schedule, Start/Run/Stop/Schedule/Remove/Entries) — Cron's unexported fields by type or method set, searched through its own sub-structs held by value, pointer or embedding (the []*Entry list, the bool running flag, the mutex, the Add/Done/Wait job counter, the four request channels by element type, the *time.Location, the ID counter as the field of Entry.ID's type whose value reaches Entry.ID; today's names only break ties); the scheduler loop as the function whose blocking select receives from the stop channel; the scheduler role as the activations that run that loop through calls and are spawned with go or called from an exported method; helpers by what they do. " +
+		"HOW FACTS ARE ESTABLISHED: an interprocedural powerset dataflow over the package's functions (callee summaries per entry state and per callback binding, entry states from call sites, go statements handing the scheduler role over), path-sensitive on up to three tracked booleans per function (a tested flag, a bool helper's result or one component/enum constant of a result tuple, flag variables, nil tests) plus one captured boolean through which a callback reports to its caller; calls are followed through static callees, closures with or without captured variables, closure parameters of callback helpers such as locked(func(){...}), method values in locals or unexported func-typed fields, elements of literal tables of steps, single-implementation unexported interfaces, and callbacks of sort/slices; values are followed through parameters, helper results, named results, temporaries and fields of local structs; a variable is treated as a location (SSA web, local cell, field of a local struct) whose assignments are observed; the mutex state is part of the flow. " +
+		"WHAT IS DECIDED (runningMu/running/entries/jobWaiter/add/remove/snapshot/stop denote the roles): " +
+		"(S1-ownership) entries and the Next/Prev of its elements are touched only by an activation holding the scheduler role or with the mutex held after running was read false in that critical section; (S1-single-scheduler) from every exported entry point the loop is entered only after running was read false and set true in one critical section. " +
+		"(S2-routing) every send on a request channel happens with the mutex held on the running==true branch, never by the scheduler itself; (S2-twin) every return of the exported method that can forward a removal / a new entry has forwarded it or applied it to entries itself (a search that came back empty counts as applied); (S2-stop-clears-running) every return after the stop request has stored running=false under the mutex. " +
+		"(S3-counted-start) every Job.Run runs inside another Job (chain wrapper) or in a goroutine whose go statement is dominated by counter.Add(n>0), with Done never before Run; (S3-stop-context) what Stop returns is the context of one context.WithCancel(Background/TODO) and every call of its cancel is dominated by counter.Wait(); (S3-wait-after-stop) in the method that sends the stop request every start of that wait follows the send or a read of running==false; (S3-waiter-reuse) a sync.WaitGroup counter is not waited on by a detached goroutine while a restart can Add to it. " +
+		"(S4-guard) every start of an entry's job is reached only with origNext <= a clock reading and !origNext.IsZero() established (After/Before/Equal/Compare/Sub forms, predicate helpers); (S4-bookkeeping) the iteration that starts it stores Prev = origNext and Next = its own Schedule.Next(clock reading), and starts it once. " +
+		"(S5-stop-final) after the stop request was taken the scheduler does not wait again, start a job or touch entries; (S5-remove-applied) after a removal request was taken entries is rewritten (or searched in vain) before the next wait, and a decodable remover keeps exactly the entries with another ID. " +
+		"(S6-rendezvous) the stop/remove/add channels are created unbuffered. " +
+		"(S7-arm-earliest) the timer is armed for entries[0].Next with entries sorted since their last change; (S7-fresh-now) the instant subtracted was assigned a clock reading after the previous wait; (S7-rearm) every wait follows an arming decision made after the last change of entries/Next; (S7-add-case) an entry received while running gets Next from its own schedule and a reading taken after the wait, and is appended; (S7-init-next) before the first wait every existing entry gets Next recomputed; (S7-drain) a blocking drain of the timer channel is not reached with the timer whose value the wake-up consumed; (S8-order) the sort comparator (Less method, sort.Slice closure, slices.SortFunc) puts zero Next last and otherwise orders chronologically, not reversed. " +
+		"(S9-next-in-location) every time handed to an entry's Schedule.Next was converted with In(<the location field>). " +
+		"(S10-id-unique) the ID counter is accessed only under the mutex, only ever advanced by a non-zero constant, and taking a value for an ID and advancing it happen in one critical section. " +
+		"NOT decided: once-per-activation over all histories and interleavings, timing ('never early' only as a guard on every start), behaviour under clock jumps, the values Entries() returns beyond 'Prev is the instant that was compared', the chain wrappers' semantics, user Schedule implementations, liveness (a context that never completes is only a NOTE). Unknown shapes (running not a bool, several reporting cells, more tracked booleans than fit, undecoded comparator or duration form, unclassified clock source) give UNDECIDED, not VIOLATION."
 	r.Assumptions = append(r.Assumptions,
-		"interface calls (Schedule.Next, Logger, clock.Clock, clock.Timer) do not touch Cron.entries, Entry.Next/Prev or the Cron's channels",
+		"interface calls (Schedule.Next, Logger, clock.Clock, clock.Timer) do not touch entries, Entry.Next/Prev or the Cron's channels",
 		"the clock is monotone: an instant obtained from clock.Now()/a timer channel earlier is <= the current instant",
 		"a timer's channel delivers an instant not earlier than the instant the timer was armed for",
 		"type-based field and lock identity (all Cron instances are one abstract Cron)",
-		"function values passed to functions of packages sort and slices are invoked only during that call, on the caller's goroutine",
-		"role resolution: if two fields of Cron have the same role-defining type, today's field name breaks the tie; no candidate => UNDECIDED")
+		"function values passed to functions of packages sort and slices, or to a same-package helper that only calls its parameter, are invoked only during that call, on the caller's goroutine",
+		"a literal table of steps run by a range loop is modelled as the whole ordered sequence applied at each iteration (over-approximation)",
+		"a function reached through a statically known dynamic route (func-typed field, table, seam) has no other callers than those found",
+		"role resolution: if two fields have the same role-defining type, today's field name breaks the tie; no candidate => UNDECIDED")
 
 	a := newC05(c)
 
